@@ -223,6 +223,17 @@ func runC08(cfg runCfg) error {
 			}
 		}
 		c08One(run, c)
+		// an indexed LAST step together with sub-keys: the index selects first, the sub-keys then filter (seed C08-5:
+		// filtering before indexing picks the n-th MATCHING member)
+		if r.chance(0.04) {
+			var books []interface{}
+			for j, nb := 0, 3+r.Intn(3); j < nb; j++ {
+				books = append(books, map[string]interface{}{"lang": r.pick([]string{"en", "fr"}), "n": float64(j)})
+			}
+			sm := map[string]interface{}{"shelf": map[string]interface{}{"book": books}}
+			c08One(run, kvCase{Op: "ValuesForPath", Map: sm, Path: fmt.Sprintf("shelf.book[%d]", r.Intn(len(books))), Sep: ":",
+				SubKeys: []string{"lang:" + r.pick([]string{"en", "fr"})}})
+		}
 		// the key at two depths, the shallower occurrence under the LONGER path text (seed C08-3: shortest by characters)
 		if r.chance(0.04) {
 			k := r.pick([]string{"k", "id", "c"})
@@ -600,6 +611,14 @@ func runC10(cfg runCfg) error {
 			c10One(run, kvCase{Op: "UpdateValuesForPath", Map: sm, Path: "doc." + k, Sep: ":",
 				NewVal: map[string]interface{}{k: r.pick([]string{"gone", "new"})}, SubKeys: []string{tag + ":a"}})
 		}
+		// an EMPTY list under the new value's key, with sub-keys: nothing to replace there, and the list must stay [] (seed C10-6)
+		if r.chance(0.03) {
+			k := r.pick([]string{"items", "list", "k"})
+			sm := map[string]interface{}{"doc": map[string]interface{}{"tag": "t", k: []interface{}{}},
+				"e": []interface{}{map[string]interface{}{k: []interface{}{}}, map[string]interface{}{k: []interface{}{map[string]interface{}{"id": "7"}}}}}
+			c10One(run, kvCase{Op: "UpdateValuesForPath", Map: sm, Path: r.pick([]string{"doc." + k, "e." + k, "*." + k}), Sep: ":",
+				NewVal: k + ":none", SubKeys: []string{"id:7"}})
+		}
 		// a list directly inside a list below a wildcard step (JSON shape; seed C10-4: update and query must address the same values)
 		if r.chance(0.05) {
 			g2 := genCfg{maxDepth: 4, maxFan: 3, nestedLists: true, emptyLists: true}
@@ -806,13 +825,13 @@ func c10One(run *Run, c kvCase) {
 		run.violation(Violation{Key: "unexpected-error", What: "well-formed update rejected", Input: c, Got: o.text(), Want: "count"})
 		return
 	}
-	if cnt == 0 && canon(after) != canon(c.Map) {
-		run.violation(Violation{Key: "zero-count-modified", What: "count 0 but Map modified", Input: c, Got: canon(after), Want: canon(c.Map)})
+	if cnt == 0 && canonNil(after) != canonNil(deepCopy(c.Map)) {
+		run.violation(Violation{Key: "zero-count-modified", What: "count 0 but Map modified (an empty list replaced by a nil one counts)", Input: c, Got: canonNil(after), Want: canonNil(deepCopy(c.Map))})
 		return
 	}
 	want := deepCopy(c.Map).(map[string]interface{})
 	wcnt := specUpdate(want, key, val, c.Path, conds)
-	if canon(after) != canon(want) || cnt != wcnt {
+	if canonNil(after) != canonNil(want) || cnt != wcnt {
 		k := "update-differs"
 		segs := strings.Split(c.Path, ".")
 		last := segs[len(segs)-1]
@@ -861,26 +880,21 @@ func specUpdateCreate(m map[string]interface{}, key string, val interface{}, pat
 		}
 		nodes = next
 	}
-	extra := 0
+	// the plain spec first (it never touches a parent that lacks the key), then the creations: the conditions of a
+	// created entry are evaluated on its parent as it was BEFORE the entry existed (a condition such as "!k:*" on the
+	// created key itself holds then and no longer afterwards)
+	cnt := specUpdate(m, key, val, path, conds)
 	if last == key {
 		for _, n := range nodes {
 			if p, ok := n.(map[string]interface{}); ok {
 				if _, present := p[key]; !present && specSatAll(conds, p) {
 					p[key] = val
-					extra++
+					cnt++
 				}
 			}
 		}
 	}
-	// the created entries must not be counted twice: run the plain spec on a copy without them
-	cnt := specUpdateNoTouch(m, key, val, path, conds, extra)
 	return cnt
-}
-
-func specUpdateNoTouch(m map[string]interface{}, key string, val interface{}, path string, conds []specCond, extra int) int {
-	// entries just created already hold val; specUpdate would "replace" them again and count them
-	n := specUpdate(m, key, val, path, conds)
-	return n // created entries are replaced by the same value and counted once here
 }
 
 // ================================================================ C11
@@ -1107,6 +1121,22 @@ func runC12(cfg runCfg) error {
 			pairs = append(pairs, p)
 		}
 		c12One(run, kvCase{Op: "NewMap", Map: m, Pairs: pairs, Sep: ":"})
+		// JSON shape: a list directly inside a list whose inner list has a map member; the inner list is projected to X
+		// and a later pair's new path extends X (seed C12-6: the walk must not write into the receiver's inner list)
+		if r.chance(0.03) {
+			k := r.pick([]string{"rows", "grid", "list"})
+			inner := []interface{}{"h", map[string]interface{}{"p": "1"}}
+			var sm map[string]interface{}
+			var ps []string
+			if r.chance(0.5) {
+				sm = map[string]interface{}{k: []interface{}{inner}, "extra": r.genScalar()}
+				ps = []string{k + ":x", "extra:x." + r.pick([]string{"q", "p", "deep.er"})}
+			} else {
+				sm = map[string]interface{}{k: []interface{}{[]interface{}{"a"}, inner}, "more": r.genScalar()}
+				ps = []string{k + "[1]:y.z", "more:y.z." + r.pick([]string{"q", "deep.er"})}
+			}
+			c12One(run, kvCase{Op: "NewMap", Map: sm, Pairs: ps, Sep: ":"})
+		}
 	}
 	return run.finish()
 }
